@@ -157,12 +157,20 @@ pub fn layering_defect(
             got, want
         ));
     }
+    // dependencies are transitive: when only part of a chain is requested (pruning to the changed
+    // targets), a target still has to come after everything it reaches through targets that are not
+    // part of the groups
     for &t in want {
-        for &u in &adj[t] {
-            if want.contains(&u) && !(idx[&u] < idx[&t]) {
+        let reach = closure(adj, &[t]);
+        for &u in &reach {
+            if u != t && want.contains(&u) && !(idx[&u] < idx[&t]) {
                 return Some(format!(
-                    "{} depends on {} but is in group {} <= group {}",
-                    t, u, idx[&t], idx[&u]
+                    "{} depends on {} ({}) but is in group {} <= group {}",
+                    t,
+                    u,
+                    if adj[t].contains(&u) { "directly" } else { "through other targets" },
+                    idx[&t],
+                    idx[&u]
                 ));
             }
         }
